@@ -12,6 +12,10 @@ type WriteExtend interface {
 	After(flg uint32, key []byte, val []byte) error
 }
 
+type ScanExtend interface {
+	AfterScan(flg uint32, key []byte, val []byte) error
+}
+
 type SyncFileDB struct {
 	Home string
 
